@@ -103,7 +103,9 @@ def run(ctx):
             small[cls] = f
         if len(small) == 2:
             break
-    targets = [peer2] + [small[k] for k in sorted(small)] + (corpus if not q else corpus[:2])
+    # quick: Logon, Heartbeat and the frame with a repeating group (corruptions inside a group take the decoder's
+    # group-context paths); thorough: the whole corpus
+    targets = [peer2] + [small[k] for k in sorted(small)] + (corpus if not q else corpus[:2] + [corpus[4]])
     for ti, f in enumerate(targets):
         muts = grammar_mutants(f) + list(byte_mutants(f, full=(not q and ti == 0)))
         if q and len(muts) > 2500:
